@@ -7,11 +7,14 @@ ENGINES = [
 ]
 TB = "TLC 1.8.0; the Rust harness and its scenario concretisation; TLA+ model fidelity is bound by replay + trace validation, not proved"
 CLAIMED["C11"] = (
-    "model_checking", "TLA+ set model + ring design refinement (TLC), replay on real filter, trace validation",
+    "model_checking", "TLA+ set model + ring design refinement (TLC), replay on real filter, trace validation; PacketSessions (one window per server session at the client) replayed on the real client datagram codec; live sessions over a duplicating / delaying / replaying link and across a server restart validated against TraceUdp",
     "TLC checks exhaustively that the ring design (packet_window.rs transcribed) refines the abstract set model at scaled constants, "
     "enumerates every history over a boundary alphabet at the real constants and replays each on the real PacketWindowFilter; "
     "random long histories recorded from the real filter are validated by TLC against the set model. Exhaustive on the model, "
-    "sampled on 64-bit IDs.",
+    "sampled on 64-bit IDs. PacketSessions: every history of five (server session, id) presentations is replayed on the real client "
+    "datagram codec with replies made by the real server codec (deviations OneWindow, ResetOnFlip). End to end: real client and server with a "
+    "UDP middlebox that duplicates, delays, reorders, replays from another address, with datagrams the server cannot pass on between an accepted "
+    "datagram and its copy, and with the server restarted in mid-session while recorded datagrams of the old server session are presented again.",
     TB, "5.11")
 HOOK_COMMITS.append("9a14efa")
 HOOK_COMMITS.append("b7ecbbf")
@@ -68,7 +71,8 @@ CLAIMED["C06"] = (
     "TLC enumerates every (server configuration, server-level secret the peer knows, user-level secret, message form), checks NoEmitWithoutCredential / CredentialAccepted / "
     "NoCrossUser and that four named deviations violate them; each case is built from exactly those keys with the reference codec (wrong key, one bit different, other registered "
     "user, unregistered, other protocol's valid handshake, random, truncated) for every cipher and presented to the real TCP and UDP server codecs; for accepted sessions the real "
-    "server's answer is opened under every candidate key to see whose it is.",
+    "server's answer is opened under every candidate key to see whose it is. Also: a peer that knows only the server key (in the user key's place, identity header naming "
+    "nobody), and credentials registered at ANOTHER listener of the same process, before and after that listener has served them (two real listeners in one process).",
     TB + "; reference codec builds the attacker's messages", "5.6")
 CLAIMED["C12"] = (
     "model_checking", "TLA+ Wire ledger model (TLC exhaustive + deviations), trace validation of the units the real encoders put on the wire (nonces recovered by the reference opener)",
